@@ -818,3 +818,8 @@ func CreateOnly(c *Case) (qtype string, err error, panicked string) {
 	q.Close()
 	return qtype, nil, ""
 }
+
+// NewQueryAny creates a query on an engine returned by BuildEngine.
+func NewQueryAny(e any, st storage.Queryable, c *Case) (promql.Query, error) {
+	return NewQuery(e.(queryEngine), st, c)
+}
